@@ -104,14 +104,12 @@ def shape_statement(shape, with_size):
         if with_size:
             head.append(("OPCODE_SIZE", size))
         toks = _toks(B, head + pat + [("EOF", "")])
-        body = toks[len(head):-1]
-        # the operand expression: everything that is not bracket syntax, '#', or an index register -- except parentheses that belong to the expression
-        if shape in ("(e)+f", "(e)+f,x"):
-            operand = [t for t, (tt, _v) in zip(body, pat) if tt != "ADDRESSING_MODE_INDEX"]
-        else:
-            operand = [t for t, (tt, _v) in zip(body, pat) if tt in ("IDENTIFIER", "OPERATOR")]
+        ve, vf = B.int("e"), B.int("f")
+        value = {"e+f": ve + vf, "(e)+f": ve + vf, "(e)+f,x": ve + vf, "(e+f),y": ve + vf, "[e+f]": ve + vf, "#-e": -ve}.get(shape, ve)
+        res = shapes.resolver(B)
+        shapes.root_symbols(B, res, {"e": ve, "f": vf})
         p = B.inst("a816.parse.parser.Parser", tokens=B.list(toks), pos=0, initial_state=None)
-        return {"p": p, "resolver": shapes.resolver(B), "shape": shape, "size_text": size, "mnemonic": "nop" if shape == "implied" else "lda", "operand_tokens": B.list(operand)}
+        return {"p": p, "resolver": res, "shape": shape, "size_text": size, "mnemonic": "nop" if shape == "implied" else "lda", "operand_value": value}
     return sh
 
 
@@ -162,7 +160,8 @@ def cases(E):
     for shp in syntax.SHAPES:
         for ws in (False, True):
             cs.append(Case(H + "statement_tokens_contract", f"{shp}{' with size suffix' if ws else ''}", shape_statement(shp, ws),
-                           target=["a816.parse.parser_states.parse_opcode", "a816.parse.parser_states.parse_operand_and_addressing", "a816.parse.codegen.generate_opcode"], group="syntax"))
+                           target=["a816.parse.parser_states.parse_opcode", "a816.parse.parser_states.parse_operand_and_addressing", "a816.parse.codegen.generate_opcode"], group="syntax",
+                           drop_overrides=["a816.parse.ast.expression.eval_expression"]))
     table = E.lifter.module("a816.cpu.cpu_65c816").snes_opcode_table
     from vf.specs import isa65816
     for m in sorted(table):
@@ -189,7 +188,7 @@ def cases(E):
 
 OPTIONAL_CHECKS = {"statement_bytes_contract": ["supported_statement_accepted", "only_isa_instructions", "opcode_of_the_denoted_form", "implied_is_one_byte", "operand_le_at_the_width"],
                    "statement_tokens_contract": ["only_malformed_shapes_are_refused_by_the_parser", "whole_statement_consumed", "one_node", "mnemonic_lower_cased", "no_suffix_no_size",
-                                                 "suffix_is_the_size", "mode_denotes_the_syntax_form", "no_operand", "operand_is_the_operand_tokens", "operand_resolver"],
+                                                 "suffix_is_the_size", "mode_denotes_the_syntax_form", "no_operand", "operand_value_is_the_written_expression"],
                    "table_mnemonic_contract": ["supported_cell_accepted", "only_isa_instructions", "opcode_byte", "implied_is_one_byte", "operand_le", "label_pass_size_is_emitted_size"],
                    "table_mnemonic_nosuffix_contract": ["supported_cell_accepted_nosuffix", "only_isa_instructions_nosuffix", "opcode_byte_nosuffix", "operand_le_nosuffix", "label_pass_size_is_emitted_size_nosuffix"],
                    "opcode_node_size_agreement_contract": ["size_agreement"],
